@@ -254,6 +254,20 @@ theorem ksPbox_contains_ecdf (s : List ℚ) (hs : s ≠ []) {D : ℚ} (hD : 0 < 
     split_ifs at h; cases h
     exact ⟨h1, h2⟩
 
+theorem anyGt_false_of_le {A B : List ℚ} (h : List.Forall₂ (· ≤ ·) A B) : anyGt A B = false := by
+  induction h with
+  | nil => rfl
+  | cons hab _ ih => simp [anyGt, ih, not_lt.mpr hab]
+
+/-- the bounds looked up from a KS band never cross, so the crossing check of the `Pbox` constructor (1ca78ea)
+never fires on them: every non-empty sample, `D > 0`, any levels in `(0,1]` -/
+theorem ks_bounds_never_cross (s : List ℚ) (hs : s ≠ []) {D : ℚ} (hD : 0 < D) (pv : List ℚ)
+    (hpv : ∀ x ∈ pv, 0 < x ∧ x ≤ 1) :
+    ∃ A B, pv.mapM (interpNext (extend (band s D).1)) = some A ∧
+      pv.mapM (interpNext (extend (band s D).2)) = some B ∧ anyGt A B = false := by
+  obtain ⟨A, E, B, hA, hE, hB, h1, h2⟩ := pbox_lists s hs hD pv hpv
+  exact ⟨A, B, hA, hB, anyGt_false_of_le (forall₂_le_trans h1 h2)⟩
+
 theorem sortR_of_sorted {l : List ℚ} (h : l.Pairwise (· ≤ ·)) : sortR l = l :=
   List.mergeSort_of_pairwise (le := fun a b : ℚ => decide (a ≤ b)) (h.imp (by intro a b hab; simpa using hab))
 
@@ -289,7 +303,7 @@ theorem ecdf_quantile_is_geninv (s : List ℚ) (hs : s ≠ []) {x e : ℚ} (hx0 
     unfold ecdf ecdfQ
     rw [hQ, hP]
     exact extend_id hql (by rw [← hP]; exact hlast)
-  rw [hE, interpNext_eq (p0 := 0) (pl := 1) (by simp) (by rw [← hP]; exact hlast) (le_of_lt hx0) hx1] at h
+  rw [hE, interpNext_eq (p0 := 0) (pl := 1) (qh := q0) (by simp) (by rw [← hP]; exact hlast) (by simp) hql (le_of_lt hx0) hx1] at h
   simp only [nextLookup, not_le.mpr hx0, if_false] at h
   have hlen : s.length = (q0 :: Qt).length := by rw [← hQ]; exact hsl.symm
   rw [hlen] at h
